@@ -694,6 +694,7 @@ static uint64_t process_cpu_ns(void)
 	return (uint64_t)ts.tv_sec * 1000000000ull + (uint64_t)ts.tv_nsec;
 }
 
+static _Atomic int g_sig_stop;
 static void dump_stuck(const char *kind, const char *ctx, vf_tstat_t *ts, int n)
 {
 	char detail[1800];
@@ -706,6 +707,8 @@ static void dump_stuck(const char *kind, const char *ctx, vf_tstat_t *ts, int n)
 	char key[160];
 	snprintf(key, sizeof(key), "%s:%s", kind, ctx);
 	vf_violation(key, "%s", detail);
+	atomic_store(&g_sig_stop, 1);   /* the witness is complete: no more signals (the gdb dump below must not be interrupted) */
+	if (getenv("VF_HANG_PAUSE")) { fprintf(stderr, "VF_HANG_PAUSE: pid %d paused for a debugger\n", (int)getpid()); uint64_t until = vf_now_ns(CLOCK_MONOTONIC) + (uint64_t)atoi(getenv("VF_HANG_PAUSE")) * 1000000000ull; while (vf_now_ns(CLOCK_MONOTONIC) < until) { struct timespec ts = { 0, 100000000 }; nanosleep(&ts, NULL); } }
 	/* best effort: record where every thread sleeps */
 	const char *dir = getenv("VF_REPLAY_DIR");
 	if (dir && !getenv("VF_NO_GDB")) {
@@ -730,9 +733,17 @@ static void *watchdog_main(void *arg)
 	static vf_tstat_t ts[512];
 	static struct { int tid; int r_seen; } rtab[512];
 	int nr = 0;
+	/* the watchdog takes no signals: an interrupted sleep would shorten the sampling period and turn a
+	 * few milliseconds in which every thread happens to sleep into a stuck witness (--sigstorm) */
+	sigset_t all; sigfillset(&all); pthread_sigmask(SIG_BLOCK, &all, NULL);
 	for (;;) {
-		struct timespec sl = { 0, 500 * 1000 * 1000 };
-		nanosleep(&sl, NULL);
+		/* one sample per 0.5 s of monotonic time, whatever wakes the sleep up */
+		uint64_t wake = vf_now_ns(CLOCK_MONOTONIC) + 500ull * 1000 * 1000;
+		while (vf_now_ns(CLOCK_MONOTONIC) < wake) {
+			uint64_t left = wake - vf_now_ns(CLOCK_MONOTONIC);
+			struct timespec sl = { 0, (long)(left < 500000000ull ? left : 500000000ull) };
+			nanosleep(&sl, NULL);
+		}
 		if (!atomic_load(&g_wd.armed)) { asleep_samples = 0; idle_since_ns = 0; continue; }
 		uint64_t ep = atomic_load(&g_wd.epoch);
 		uint64_t prog = atomic_load(&vf_progress_ctr);
@@ -861,13 +872,14 @@ static void *sigstorm_main(void *arg)
 	vf_rng_t r; vf_rng_seed(&r, vf_opts.seed, 0x516);
 	int tids[512], n = 0; uint64_t refreshed = 0;
 	for (;;) {
+		if (atomic_load(&g_sig_stop)) { struct timespec zz = { 0, 50000000 }; nanosleep(&zz, NULL); continue; }
 		uint64_t now = vf_now_ns(CLOCK_MONOTONIC);
 		if (!n || now - refreshed > 20000000ull) {
 			n = 0; refreshed = now;
 			DIR *d = opendir("/proc/self/task");
 			if (d) {
 				struct dirent *e;
-				while ((e = readdir(d)) && n < 512) { int t = atoi(e->d_name); if (t > 0 && t != self) tids[n++] = t; }
+				while ((e = readdir(d)) && n < 512) { int t = atoi(e->d_name); if (t > 0 && t != self && t != g_wd_tid) tids[n++] = t; }
 				closedir(d);
 			}
 		}
